@@ -1,10 +1,10 @@
 #!/bin/sh
-# Extract the model from Coq and build the driver. Run from anywhere.
+# Extract the models from Coq (one OCaml module per Coq file) and build the driver.
 set -e
 cd "$(dirname "$0")"
-coqc -Q ../coq Parol ../coq/Extract/Extraction.v >/dev/null
-mkdir -p _build
-cp model.ml model.mli sexp.ml conv.ml driver.ml _build/
-cd _build
-ocamlfind ocamlopt -O3 -w -a -package str model.mli model.ml sexp.ml conv.ml driver.ml -o drv 2>/dev/null || \
-ocamlfind ocamlopt -w -a -package str model.mli model.ml sexp.ml conv.ml driver.ml -o drv
+rm -rf _build/gen && mkdir -p _build/gen
+( cd _build/gen && coqc -Q ../../../coq Parol ../../../coq/Extract/Extraction.v >/dev/null )
+cp sexp.ml conv.ml driver.ml _build/gen/
+cd _build/gen
+ORDER=$(ocamlfind ocamldep -sort *.mli *.ml)
+ocamlfind ocamlopt -O3 -w -a $ORDER -o ../drv 2>/dev/null || ocamlfind ocamlopt -w -a $ORDER -o ../drv
